@@ -107,6 +107,7 @@ func (c *tcpConsumer) Close() error {
 	if c.closed {
 		return nil
 	}
+	verifPoint("consumer.close.checked", c.Session)
 	c.closed = true
 	c.source.StopConsume(c.cid)
 	c.source = nil
@@ -144,6 +145,7 @@ func (c *udpConsumer) Close() error {
 	if c.closed {
 		return nil
 	}
+	verifPoint("consumer.close.checked", c.Session)
 	c.closed = true
 
 	c.source.StopConsume(c.cid)
